@@ -488,6 +488,7 @@ func descEvent(d BatchDesc) map[string]interface{} {
 func Run(sc *Script) []trace.Event {
 	name := fmt.Sprintf("r%d", atomic.AddInt64(&counter, 1))
 	r := &run{sc: sc, rec: trace.New(), net: fakenet.NewNet(), noTs: map[int64]bool{}}
+	r.rec.Cap, r.rec.Always = 20000, map[string]bool{"end": true, "hang": true, "close.call": true, "close.return": true, "panic": true}
 	r.net.Name = name
 	r.cl = fakekafka.NewCluster(r.net, 2)
 	vs := fakekafka.DefaultVersions()
